@@ -193,6 +193,27 @@ pub fn invariants(c: &Conversation, rep: &mut Report) -> Vec<(&'static str, Stri
             }
         }
     }
+    // I6: fail-stop inside the reset handshake. After an acknowledged StartReset the next hello must be answered by the
+    // sign's own ReadyToReset, after an acknowledged FinishReset by its own Unconfigured; anything else is a reply the
+    // protocol does not allow at that point: the call must end there with a protocol (or bus) error.
+    for i in 0..n.saturating_sub(1) {
+        let want = match (&log[i].0, &log[i].1) {
+            (RefMsg::Request(a, o), Reply::Msg(Some(RefMsg::Ack(b, p)))) if a == b && o == p && *a == own && *o == O_START_RESET => S_READY_RESET,
+            (RefMsg::Request(a, o), Reply::Msg(Some(RefMsg::Ack(b, p)))) if a == b && o == p && *a == own && *o == O_FINISH_RESET => S_UNCONF,
+            _ => continue,
+        };
+        if log[i + 1].0 != RefMsg::Hello(own) {
+            continue;
+        }
+        rep.count("I6_hello_after_reset_step_seen");
+        if !is_report(&log[i + 1].1, own, &[want]) {
+            rep.count("I6_out_of_sequence_state_after_reset_step");
+            let want_class = if log[i + 1].1 == Reply::BusError { "bus_error" } else { "protocol_error" };
+            if n != i + 2 || class != want_class {
+                bad.push(("I6_reset_handshake_not_fail_stop", format!("after the acknowledged {} the hello was answered {} instead of the sign's own {}, yet the call went on / returned {}", log[i].0.show(), log[i + 1].1.show(), st_name(want), c.out.show())));
+            }
+        }
+    }
     // (c) page switching
     if matches!(c.op, Op::Show | Op::LoadNext) {
         for i in 0..n {
@@ -441,6 +462,7 @@ pub fn run(ctx: &Ctx, invariants_mode: bool) -> Outcome {
             "I5_foreign_reply_in_reset_dance",
             "I5_foreign_reply_in_page_switch",
             "I5_foreign_showing_pages_at_flip_query",
+            "I6_out_of_sequence_state_after_reset_step",
         ] {
             floors.push(floor(&format!("antecedent observed: {}", k), report.get(k) > 0, report.get(k)));
         }
